@@ -42,7 +42,7 @@ def snapshot(t):
     db = t.db.plain() if isinstance(t.db, LogDict) else dict(t.db)
     rc = None
     if t.is_pruning:
-        rc = {k: v for k, v in t._ref_count.items() if v != 0}
+        rc = {k: v for k, v in t.ref_count.items() if v != 0}  # the public view of the reference counts
     return (t.root_hash, db, rc)
 
 
@@ -156,7 +156,9 @@ class HexSys:
     canon = staticmethod(canon)
 
     def task_reset(self):
-        HexaryTrie._cached_create_node_to_db_mapping.cache_clear()
+        clear = getattr(getattr(HexaryTrie, "_cached_create_node_to_db_mapping", None), "cache_clear", None)
+        if clear is not None:  # a memo of a pure function; cleared between tasks only to keep workers independent
+            clear()
 
     def events(self, snap, model):
         if self.pairs:
@@ -294,7 +296,7 @@ class HexSys:
                 m = dict(model)
         else:
             raise ValueError(ev)
-        if t._pending_prune_keys is not None:
+        if getattr(t, "_pending_prune_keys", None) is not None:
             viols.append(V(self._p("C06"), "pending_prune_left", "_pending_prune_keys not reset after the call"))
         post = snapshot(t)
         # ---- transition invariants
